@@ -78,6 +78,13 @@ func (R *Repository) AddCRL(crlLocations *core.CRLLocations, chains *core.Certif
 
 	entry.entryLock.Lock()
 	defer entry.entryLock.Unlock()
+	if crlAdded {
+		//remember the locations, the background load and every later update need them
+		err = entry.CRLStore.UpdateCRLLocations(crlLocations)
+		if err != nil {
+			return crlAdded, err
+		}
+	}
 	if entry.LastUpdateSignatureVerifyFailed {
 		//check if the chain contains a new valid signing cert
 		R.tryUpdateSignatureCertFromChain(entry, chains)
@@ -542,6 +549,10 @@ func (R *Repository) UpdateCRL(crlLocations *core.CRLLocations, chains *core.Cer
 	}
 	entry := R.getEntrySync(identifier)
 	if entry != nil {
+		if R.isEntryLoaded(entry) == false {
+			//entry was added without loading it (background fetch mode), so there is nothing to update yet
+			return R.loadActively(entry, chains, crlLocations)
+		}
 		err := R.updateCrlEntry(entry, chains)
 		if err != nil {
 			return err
